@@ -546,6 +546,144 @@ def emit_scaling(d: dict, hdr: str) -> str:
     return body
 
 
+def _numeric_compare_tolerances(filters) -> dict:
+    """rel_tol / abs_tol of the comparison of two numbers in filters.py (C20, Model/FiltersF64.lean `relTol`).
+
+    (1) source: every call of `math.isclose` in the module (ast), its `rel_tol` / `abs_tol` keywords evaluated in the module's
+        namespace, absent keywords = the defaults of `math.isclose`;
+    (2) behaviour: `on_change(cb)` is called with a then b for pairs of doubles around the boundary
+        |b - a| <= max(rel_tol * max(|a|, |b|), abs_tol) at magnitudes 2^-20 .. 2^200 and powers of ten; a candidate (the value read
+        from the source, 0, the default of math.isclose, the estimate bisected at 2^200) is accepted when CPython's formula with that
+        candidate answers every probe as the filter does.
+    The emitted value is the first accepted candidate; `source` says which and whether source and behaviour agree."""
+    import ast
+    import math
+
+    sig = inspect.signature(math.isclose).parameters
+    default_rel, default_abs = float(sig["rel_tol"].default), float(sig["abs_tol"].default)
+    found = []
+    try:
+        tree = ast.parse(inspect.getsource(filters))
+        ns = dict(vars(filters))
+        ns.setdefault("math", math)
+        for node in ast.walk(tree):
+            if not isinstance(node, ast.Call):
+                continue
+            f = node.func
+            is_isclose = (isinstance(f, ast.Attribute) and f.attr == "isclose") or (isinstance(f, ast.Name) and ns.get(f.id) is math.isclose)
+            if not is_isclose:
+                continue
+            kw = {}
+            opaque = False
+            for k in node.keywords:
+                if k.arg is None:
+                    opaque = True
+                    continue
+                try:
+                    kw[k.arg] = float(eval(compile(ast.Expression(k.value), "<filters>", "eval"), ns))  # noqa: S307
+                except Exception:  # noqa: BLE001
+                    opaque = True
+            if not opaque:
+                found.append((kw.get("rel_tol", default_rel), kw.get("abs_tol", default_abs)))
+    except Exception:  # noqa: BLE001
+        found = []
+
+    def changed(a, b):
+        """does on_change deliver b after a (None: the call raised)"""
+        got = []
+
+        async def cb(v):
+            got.append(v)
+
+        try:
+            flt = filters.on_change(cb)
+            for v in (a, b):
+                c = flt(v)
+                try:
+                    c.send(None)
+                except StopIteration:
+                    pass
+                else:
+                    c.close()
+                    return None
+        except Exception:  # noqa: BLE001
+            return None
+        return len(got) == 2
+
+    def formula(r, t, a, b):
+        if a == b:
+            return False
+        diff = abs(b - a)
+        return not (diff <= abs(r * b) or diff <= abs(r * a) or diff <= t)
+
+    # absolute tolerance as observed below magnitude 1 (there every plausible rel_tol is inert): bisect the largest unchanged step from 0.0
+    lo, hi = 0.0, 1e6
+    if changed(0.0, hi) is not True:
+        abs_seen = None
+    else:
+        for _ in range(200):
+            mid = (lo + hi) / 2
+            if mid in (lo, hi):
+                break
+            if changed(0.0, mid):
+                hi = mid
+            else:
+                lo = mid
+        abs_seen = lo
+    # relative tolerance estimate at 2^200 (steps are multiples of the ulp there, 22 significant bits of rel_tol at best)
+    base = 2.0 ** 200
+    lo, hi = 0.0, base
+    rel_seen = None
+    if changed(base, base + hi) is True:
+        for _ in range(200):
+            mid = (lo + hi) / 2
+            if base + mid == base + lo or base + mid == base + hi:
+                break
+            if changed(base, base + mid):
+                hi = mid
+            else:
+                lo = mid
+        rel_seen = lo / base
+    cands = []
+    for c in found:
+        if c not in cands:
+            cands.append(c)
+    for r in (0.0, default_rel, rel_seen, None if rel_seen is None else float(f"{rel_seen:.3g}"), None if rel_seen is None else float(f"{rel_seen:.1g}")):
+        for t in ([abs_seen] if abs_seen is not None else []) + [float(filters.TOLERANCE)]:
+            if r is not None and r >= 0 and t >= 0 and (r, t) not in cands:
+                cands.append((r, t))
+    probes = []
+    mags = [2.0 ** k for k in (-20, -3, 0, 3, 10, 20, 26, 27, 30, 40, 52, 53, 60, 100, 200)] + [10.0 ** k for k in range(0, 19)] + [123456789.5, 99999999.0]
+    for m in mags:
+        for r, t in cands[:6]:
+            for thr in (t, r * m, math.nextafter(r * m, math.inf), r * m * 1.5, r * m / 1.5, t * 1.5, t / 1.5, 2 * t, 1.0, 0.15, 0.05):
+                for sgn in (1, -1):
+                    for base_ in (m, -m):
+                        for b in (base_ + sgn * thr, math.nextafter(base_ + sgn * thr, math.inf), math.nextafter(base_ + sgn * thr, -math.inf)):
+                            probes.append((base_, b))
+    seen = {}
+    for a, b in probes:
+        if (a, b) not in seen:
+            seen[(a, b)] = changed(a, b)
+    accepted = None
+    for r, t in cands:
+        if all(v is not None and formula(r, t, a, b) == v for (a, b), v in seen.items()):
+            accepted = (r, t)
+            break
+    if accepted is None:
+        chosen = found[0] if found else (default_rel, float(filters.TOLERANCE))
+        source = "unconfirmed"
+        how = f"NOT confirmed by the probes ({len(seen)} pairs): no candidate among {cands!r} answers them all as on_change does."
+    else:
+        chosen = accepted
+        source = "source+probes" if accepted in found else "probes"
+        how = (f"{len(found)} isclose call(s) in the source, {len(seen)} probe pairs; value {'read from the source and ' if accepted in found else 'NOT readable from the source, '}"
+               f"confirmed by every probe (repr rel_tol {chosen[0]!r}, abs_tol {chosen[1]!r}).")
+    rq, tq = Fraction(chosen[0]), Fraction(chosen[1])
+    return dict(rel_tol=[rq.numerator, rq.denominator], abs_tol=[tq.numerator, tq.denominator], source=source, how=how,
+                rel_tol_repr=repr(chosen[0]), abs_tol_repr=repr(chosen[1]), calls=len(found), probes=len(seen))
+
+
 def _events_tables() -> dict:
     """Reflection over `pyplumio.filters`, `EventManager` and the version bookkeeping of `PhysicalDevice`
     (events worker, C13 / C15 / C20): a new, removed or renamed public filter factory / EventManager method, a changed
@@ -604,6 +742,7 @@ def _events_tables() -> dict:
                             params(obj.__init__, skip_self=True), "async" if inspect.iscoroutinefunction(obj.__call__) else "sync"])
     rel = Fraction(inspect.signature(math.isclose).parameters["rel_tol"].default)
     abs_default = Fraction(inspect.signature(math.isclose).parameters["abs_tol"].default)
+    numeric_compare = _numeric_compare_tolerances(filters)
     em = event_manager.EventManager
     methods = []
     for name in sorted(n for n in vars(em) if not n.startswith("_") or n in ("__getattr__",)):
@@ -624,6 +763,7 @@ def _events_tables() -> dict:
         "filter_classes": classes,
         "isclose_rel_tol": [rel.numerator, rel.denominator],
         "isclose_abs_tol_default": [abs_default.numerator, abs_default.denominator],
+        "numeric_compare": numeric_compare,
         "event_manager_api": methods,
         "setup_kinds": setup,
         "attr_frame_versions": fv.ATTR_FRAME_VERSIONS,
@@ -649,6 +789,13 @@ def emit_events_tables(d: dict, hdr: str) -> str:
         [f"({lean_str(n)}, {lean_str(e)}, {lean_str(h)}, {lean_str(v)}, {plist(ps)}, {lean_str(a)})" for n, e, h, v, ps, a in t["filter_classes"]], 1) + "\n\n"
     body += "/-- the default `rel_tol` of `math.isclose` (the filters pass only `abs_tol`) as an exact rational -/\n"
     body += f"def iscloseRelTolNum : Nat := {t['isclose_rel_tol'][0]}\ndef iscloseRelTolDen : Nat := {t['isclose_rel_tol'][1]}\n\n"
+    nc = t["numeric_compare"]
+    body += ("/-- the relative / absolute tolerance of the comparison of two numbers as `filters.py` makes it (the `math.isclose` call the number\n"
+             "    branch of the change test reaches: keywords read from the source, confirmed by probing `on_change` with pairs of doubles around the\n"
+             "    boundary at several magnitudes), as exact rationals.  " + nc["how"].replace("-/", "- /") + " -/\n")
+    body += f"def relTolNum : Nat := {nc['rel_tol'][0]}\ndef relTolDen : Nat := {nc['rel_tol'][1]}\n"
+    body += f"def absTolCallNum : Nat := {nc['abs_tol'][0]}\ndef absTolCallDen : Nat := {nc['abs_tol'][1]}\n"
+    body += f"def numericCompareSource : String := {lean_str(nc['source'])}\n\n"
     body += "/-- what `EventManager` itself defines (public names and `__getattr__`): (name, kind, parameters) -/\n"
     body += "def eventManagerApi : List (String × String × List (String × String)) := " + lean_list(
         [f"({lean_str(n)}, {lean_str(k)}, {plist(ps)})" for n, k, ps in t["event_manager_api"]], 1) + "\n\n"
